@@ -819,6 +819,8 @@ func execC16P(c *vf.Ctx, d *vf.Driver, cs c16pCase) {
 		execC16PSpec(c, d, cs)
 	case "args":
 		execC16PArgs(c, cs)
+	case "screduced":
+		execC16PScRange(c, d, grpLE(cs.S), cs.Tag)
 	}
 }
 
@@ -898,6 +900,8 @@ func runC16P(c *vf.Ctx) {
 		}
 		// arguments are not modified, histories (pure Go, fast): first, so that a slip shows at once
 		runC16PArgs(c, r, c.Budget(12, 120))
+		// the scalar range check (hand-modelled isReduced / SetCanonicalBytes) at its boundaries
+		runC16PScRange(c, r, d, c.Budget(2, 20))
 		for i := 0; i < nProg && !c.Failed(); i++ {
 			cs := c16pGenProg(r)
 			execC16P(c, d, cs)
